@@ -12,3 +12,13 @@ with open(os.path.join(engine.CONTRACTS, "ASSUMPTIONS.allow"), "w") as f:
     for k, p, n in found:
         f.write(f"{k}\t{p}\t{n}\n")
 print(open(os.path.join(engine.CONTRACTS, "ASSUMPTIONS.allow")).read())
+
+# ---- contracts/ITEMS.known: the items of the annotated files the contracts were written against
+with engine.Scratch() as sc:
+    ov = engine.build_overlay(sc.dir)
+    with open(os.path.join(engine.CONTRACTS, "ITEMS.known"), "w") as f:
+        f.write("# file<TAB>item   (items of the annotated source files at the time the contracts were written; an item not listed here has no contract)\n")
+        for rel, fo in sorted(ov.files.items()):
+            for k in check.item_keys(fo.src):
+                f.write(f"{rel}\t{k}\n")
+print(open(os.path.join(engine.CONTRACTS, "ITEMS.known")).read()[:1500])
